@@ -21,7 +21,7 @@ type FuncResult struct {
 }
 
 func (v *Verifier) VerifyFunc(f *ssa.Function, fc *FuncContract) (res *FuncResult) {
-	c := &Ctx{V: v, Fn: f, FC: fc, Key: v.fnKey(f), declSet: map[string]bool{}, obls: map[string]*Obl{}, maxPaths: 6000, trusted: map[string]bool{}, inlined: map[string]bool{}, usedContracts: map[string]bool{}}
+	c := &Ctx{V: v, Fn: f, FC: fc, Key: v.fnKey(f), declSet: map[string]bool{}, obls: map[string]*Obl{}, maxPaths: 6000, trusted: map[string]bool{}, inlined: map[string]bool{}, usedContracts: map[string]bool{}, callCovered: map[string]bool{}}
 	res = &FuncResult{Key: c.Key, Ctx: c}
 	v.prepareAxioms(c)
 	defer func() {
@@ -227,6 +227,13 @@ func (c *Ctx) frameObligations(st *State, fr *Frame, pos token.Pos) {
 				wholeOK[c.V.heapKeyByName(c, env, e.Args[0])] = true
 			case "alloc":
 				wholeOK[aliveKey] = true
+			case "chan":
+				x := env.eval(e.Args[0])
+				for _, k := range []string{chLen, chVal, chClosed} {
+					allowed[k] = append(allowed[k], x)
+				}
+			case "chans":
+				wholeOK[chLen], wholeOK[chVal], wholeOK[chClosed] = true, true, true
 			case "keys", "mapof":
 				base := env.eval(e.Args[0])
 				mi := c.mapInfo(base.GoT)
@@ -247,7 +254,7 @@ func (c *Ctx) frameObligations(st *State, fr *Frame, pos token.Pos) {
 	sort.Strings(keys)
 	al0 := c.aliveCur(fr.entry)
 	for _, k := range keys {
-		if k == aliveKey || wholeOK[k] || k == chLen || k == chVal || k == chClosed || k == ctxDoneKey {
+		if k == aliveKey || wholeOK[k] || k == ctxDoneKey {
 			continue
 		}
 		cur := st.heap[k]
